@@ -54,6 +54,9 @@ class Repo:
     def __init__(self, root: Path = REPO):
         self.root = Path(root)
         self.modules: Dict[str, Module] = {}
+        self.renames: Dict[str, Dict[str, Dict[str, str]]] = {}
+        from . import canon as _canon
+        self._ref = _canon.load_reference()
         base = self.root / "hdc"
         if not base.is_dir():
             raise AnalysisError(f"missing anchor: package directory {base}")
@@ -67,6 +70,12 @@ class Repo:
                 tree = ast.parse(src, filename=rel)
             except SyntaxError as exc:  # the build would fail as well
                 raise AnalysisError(f"cannot parse {rel}: {exc}") from exc
+            # locals renamed by a maintainer are renamed back to the reference names (alpha-equivalent program; sa/canon.py)
+            from . import canon
+            if os.environ.get("VERIF_NO_CANON") != "1":
+                applied = canon.canonicalise(dotted, tree, self._ref)
+                if applied:
+                    self.renames[dotted] = applied
             self.modules[dotted] = Module(dotted, p, rel, src, tree)
 
     def mod(self, dotted: str) -> Module:
